@@ -254,6 +254,9 @@ def run_strategy(case, st, mods=None):
   if case.get('fam') == 'sliced':
     from harness import lib_c03x
     return lib_c03x.run_sliced(case, st, mods)
+  if case.get('fam') == 'obs':           # round 10 family: harness/lib_c03y.py (st = the list of strategies)
+    from harness import lib_c03y
+    return lib_c03y.run_obs(case, st, mods)
   np, transform, io, orchestrate, rolling_stats, base = mods
   cuts, s = st['cuts'], st['s']
   try:
